@@ -17,22 +17,22 @@ fn per_baseline(t: Tier) -> u64 {
 
 fn budget(t: Tier) -> u64 {
     match t {
-        Tier::Quick => 24 * per_baseline(t),
-        Tier::Thorough => 96 * per_baseline(t),
+        Tier::Quick => 30 * per_baseline(t),
+        Tier::Thorough => 120 * per_baseline(t),
     }
 }
 
-const LOADS: [&str; 4] = ["idle", "closed_loop", "flood", "idle_long"];
+const LOADS: [&str; 5] = ["idle", "closed_loop", "flood", "idle_long", "health_fd_exhausted"];
 
 fn baseline(b: u64) -> Plan {
     let bseed = Rng::derive(crate::driver::base_seed().wrapping_add(b), "c19-baseline").next_u64() >> 1;
     let mut rng = Rng::derive(bseed, "c19");
-    let load = LOADS[(b % 4) as usize];
+    let load = LOADS[(b % 5) as usize];
     let mut plan = Plan::new("C19", &format!("c19.{}", load), bseed);
     let mut s = ServerSpec::basic(Mode::F, &random_seed_hex(&mut rng));
-    s.workers = [1i64, 4, 16][((b / 4) % 3) as usize];
+    s.workers = [1i64, 4, 16][((b / 5) % 3) as usize];
     s.source = if rng.chance(1, 2) { ConfigSource::File } else { ConfigSource::Env };
-    if (b / 12) % 2 == 1 {
+    if (b / 15) % 2 == 1 {
         s.client_stats = Some("on".into());
         s.persist_dir = Some("/tmp".into());
         s.status_interval = Some(*rng.pick(&[1i64, 10]));
@@ -44,6 +44,23 @@ fn baseline(b: u64) -> Plan {
     plan.params.insert("sig".into(), if rng.chance(1, 2) { 2 } else { 15 });
     match load {
         "idle" => {}
+        "health_fd_exhausted" => {
+            // health checks while the process is out of file descriptors (accept fails with EMFILE
+            // and the connection stays queued), some requests as well
+            s.health_port = Some(8000);
+            let t0 = 20_000 + rng.below(30_000);
+            plan.step(t0, Action::FdExhaustion { on: true });
+            for k in 0..(1 + rng.below(3)) {
+                plan.step(t0 + 1_000 + k * rng.below(40_000), Action::Health { id: k as u32 });
+            }
+            let mut ctr = bseed ^ 0xfd;
+            for k in 0..rng.below(6) {
+                plan.step(t0 + k * 7_000, Action::Send { sock: k as u32, req: valid_spec(&mut rng, &mut ctr) });
+            }
+            if rng.chance(1, 2) {
+                plan.step(t0 + 120_000 + rng.below(100_000), Action::FdExhaustion { on: false });
+            }
+        }
         "idle_long" => {
             // a server that has been idle for a long time (up to a simulated minute), optionally
             // after a little traffic at the start
@@ -221,6 +238,7 @@ fn check(plan: &Plan, out: &RunOut) -> CheckOut {
         "idle" => "load_idle",
         "closed_loop" => "load_closed_loop",
         "idle_long" => "load_idle_long",
+        "health_fd_exhausted" => "load_health_fd_exhausted",
         _ => "load_flood",
     });
     co.sample = Some(serde_json::json!({
@@ -240,7 +258,7 @@ pub fn property() -> Property {
         gen,
         check,
         finalize: no_finalize,
-        rule: "baselines = real main() booted with num_workers {1,4,16} x client_stats off/on x load {idle, long idle (20-60 simulated s), closed-loop clients, open-loop flood of one worker with inter-arrival time below the modelled service time}; for each baseline (fixed plan + tape) the scheduling points after every worker has started serving are counted and SIGINT or SIGTERM is delivered at point k — 40 stratified points per baseline (quick) or 600 (thorough; every point when the baseline has fewer); a fifth of the runs deliver a second signal; the run continues 3.6 simulated s; non-trivial = the handler ran; distinct = distinct schedule fingerprints",
+        rule: "baselines = real main() booted with num_workers {1,4,16} x client_stats off/on x load {idle, long idle (20-60 simulated s), health checks while accept() fails with EMFILE, closed-loop clients, open-loop flood of one worker with inter-arrival time below the modelled service time}; for each baseline (fixed plan + tape) the scheduling points after every worker has started serving are counted and SIGINT or SIGTERM is delivered at point k — 40 stratified points per baseline (quick) or 600 (thorough; every point when the baseline has fewer); a fifth of the runs deliver a second signal; the run continues 3.6 simulated s; non-trivial = the handler ran; distinct = distinct schedule fingerprints",
         assumptions: &["exit deadline: 3 simulated seconds after the handler ran (100 ms poll timeout + 1 s reporter sleep + margin)", "flood verdicts depend on the service-time model: ~0.5 ms per request against one datagram every 0.2 ms"],
         real: REAL_F,
         stub: STUB,
